@@ -16,7 +16,8 @@
 (*   DLISFile.generator       what a write emits, per logical file         *)
 (*                                                                         *)
 (* One action per public call; a rejected call (ok = FALSE) follows the    *)
-(* code: the parent set is created and registered, the item is not.        *)
+(* code: the parent set is created in the registry of the physical file,   *)
+(* but it is registered in the logical file only once the item exists.     *)
 (* The invariants at the end are the model-level statements of C07, C09,   *)
 (* C17, C18 and C20; `hist` records the calls (hidden by VIEW in model     *)
 (* checking, used to generate scenarios that are replayed on the real      *)
@@ -31,7 +32,11 @@ CONSTANTS
   SetNames,     \* set names (0 = the default, unnamed set)
   Classes,      \* non-origin classes
   OriginRefs,   \* explicit origin references a caller may pass to add_origin (0 = none given)
-  ItemRefs      \* explicit origin references a caller may pass to other add_* calls (0 = none given)
+  ItemRefs,     \* explicit origin references a caller may pass to other add_* calls (0 = none given)
+  RefFrom, RefTo,      \* objects of class RefFrom may refer to an existing object of class RefTo ("NONE": no references modelled)
+  HeaderShare,         \* TRUE: a logical file may be given a ready-made header that lives in the header set of an earlier one
+  OkSet,               \* outcomes of the constructor modelled: BOOLEAN, or {TRUE} to enumerate accepted calls only
+  ForeignRefCheck, HeaderSetCheck   \* check_objects refuses foreign references / crowded header sets (TRUE on this tree)
 
 VARIABLES
   nlf,     \* number of logical files
@@ -39,9 +44,10 @@ VARIABLES
   view,    \* view[lf]: sequence of registry keys in first-use order
   items,   \* item id -> [lf, cls, sn, name, copy, origin (-1 = none), explicit]
   hc,      \* [flag, stack]
+  hdr,     \* hdr[lf]: the header set the FILE-HEADER item of lf lives in (a fresh one unless a ready-made header shares one)
   hist     \* the calls so far, with the model's projection after each
 
-vars == << nlf, reg, view, items, hc, hist >>
+vars == << nlf, reg, view, items, hc, hdr, hist >>
 
 NoOrigin == -1
 Key(cls, sn) == << cls, sn >>
@@ -77,15 +83,16 @@ Proj == [i \in DOMAIN items |-> << items[i].copy, items[i].origin >>]
 
 Init ==
   /\ nlf = 0 /\ reg = << >> /\ view = << >> /\ items = << >>
-  /\ hc = [flag |-> FALSE, stack |-> << >>]
+  /\ hc = [flag |-> FALSE, stack |-> << >>] /\ hdr = << >>
   /\ hist = << >>
 
 Log(op, newItems, newHc) == hist' = Append(hist, [op |-> op, proj |-> [i \in DOMAIN newItems |-> << newItems[i].copy, newItems[i].origin >>], flag |-> newHc.flag])
 
-AddLogicalFile ==
-  /\ nlf < MaxLf /\ Len(hist) < MaxCalls
+AddLogicalFile(share) ==      \* share = 0: header built from the keywords (own set); k: ready-made header in the header set of lf k
+  /\ nlf < MaxLf /\ Len(hist) < MaxCalls /\ (share = 0 \/ (HeaderShare /\ share \in 1..nlf))
   /\ nlf' = nlf + 1 /\ view' = Append(view, << >>)
-  /\ Log([k |-> "add_lf"], items, hc)
+  /\ hdr' = Append(hdr, IF share = 0 THEN nlf + 1 ELSE hdr[share])
+  /\ Log([k |-> "add_lf", share |-> share], items, hc)
   /\ UNCHANGED << reg, items, hc >>
 
 (* add_origin(name, set_name, origin_reference): numbering, then - for the first origin of the logical file - *)
@@ -93,20 +100,20 @@ AddLogicalFile ==
 AddOrigin(lf, name, sn, explicit) ==
   /\ Len(hist) < MaxCalls /\ lf \in 1..nlf
   /\ LET key  == Key("ORIGIN", sn)
-         vw1  == ViewWith(lf, key)[lf]          \* try_add_set happens before the origins are looked at
+         vw1  == ViewWith(lf, key)[lf]          \* the origins looked at include those of the parent set
          orgs == OriginsIn(vw1)
      IN
      IF OriginClash(orgs, explicit)
      THEN \* RuntimeError before anything is created: only the set has been fetched / made
-          /\ reg' = RegWith(key) /\ view' = ViewWith(lf, key)
+          /\ reg' = RegWith(key) /\ view' = view
           /\ Log([k |-> "add_origin", lf |-> lf, name |-> name, sn |-> sn, ref |-> explicit, ok |-> FALSE], items, hc)
-          /\ UNCHANGED << nlf, items, hc >>
+          /\ UNCHANGED << nlf, items, hc, hdr >>
      ELSE
      LET reg1  == RegWith(key)
          ref   == NextOriginRef(orgs, explicit)
          first == orgs = << >>                  \* exactly one origin in the logical file's origin sets once this one is added
          id    == Len(items) + 1
-         it    == [lf |-> lf, cls |-> "ORIGIN", sn |-> sn, name |-> name, copy |-> CopyNumber(key, name), origin |-> ref, explicit |-> explicit # 0]
+         it    == [lf |-> lf, cls |-> "ORIGIN", sn |-> sn, name |-> name, copy |-> CopyNumber(key, name), origin |-> ref, explicit |-> explicit # 0, tgt |-> 0]
          mine   == UNION { { SetItems(vw1[k])[j] : j \in DOMAIN SetItems(vw1[k]) } : k \in DOMAIN vw1 }
          filled == IF first THEN [i \in DOMAIN items |-> IF i \in mine /\ items[i].origin = NoOrigin THEN [items[i] EXCEPT !.origin = ref] ELSE items[i]]
                    ELSE items
@@ -114,44 +121,44 @@ AddOrigin(lf, name, sn, explicit) ==
         /\ view' = ViewWith(lf, key)
         /\ items' = Append(filled, it)
         /\ Log([k |-> "add_origin", lf |-> lf, name |-> name, sn |-> sn, ref |-> explicit, ok |-> TRUE], Append(filled, it), hc)
-        /\ UNCHANGED << nlf, hc >>
+        /\ UNCHANGED << nlf, hc, hdr >>
 
 (* add_<class>(name, set_name, origin_reference); ok = FALSE: the constructor rejects a value *)
-AddItem(lf, cls, name, sn, explicit, ok) ==
+AddItem(lf, cls, name, sn, explicit, ok, tgt) ==      \* tgt: the object passed as a reference (0 = none)
   /\ Len(hist) < MaxCalls /\ lf \in 1..nlf
+  /\ (tgt = 0 \/ (cls = RefFrom /\ tgt \in DOMAIN items /\ items[tgt].cls = RefTo))
   /\ LET key  == Key(cls, sn)
          reg1 == RegWith(key)
          id   == Len(items) + 1
          it   == [lf |-> lf, cls |-> cls, sn |-> sn, name |-> name, copy |-> CopyNumber(key, name),
-                  origin |-> IF explicit # 0 THEN explicit ELSE DefaultOriginRef(lf), explicit |-> explicit # 0]
-     IN /\ view' = ViewWith(lf, key)
-        /\ IF ok
+                  origin |-> IF explicit # 0 THEN explicit ELSE DefaultOriginRef(lf), explicit |-> explicit # 0, tgt |-> tgt]
+     IN /\ IF ok
            THEN /\ reg' = [reg1 EXCEPT ![CHOOSE i \in DOMAIN reg1 : reg1[i].key = key].items = Append(@, id)]
-                /\ items' = Append(items, it)
-           ELSE reg' = reg1 /\ items' = items
-        /\ Log([k |-> "add", lf |-> lf, cls |-> cls, name |-> name, sn |-> sn, ref |-> explicit, ok |-> ok], items', hc)
-  /\ UNCHANGED << nlf, hc >>
+                /\ items' = Append(items, it) /\ view' = ViewWith(lf, key)
+           ELSE reg' = reg1 /\ items' = items /\ view' = view      \* the set is registered in the logical file only once the item exists
+        /\ Log([k |-> "add", lf |-> lf, cls |-> cls, name |-> name, sn |-> sn, ref |-> explicit, ok |-> ok, tgt |-> tgt], items', hc)
+  /\ UNCHANGED << nlf, hc, hdr >>
 
 EnterHC ==
   /\ Len(hist) < MaxCalls /\ Len(hc.stack) < 2
   /\ hc' = [flag |-> TRUE, stack |-> Append(hc.stack, hc.flag)]
   /\ Log([k |-> "hc_enter"], items, hc')
-  /\ UNCHANGED << nlf, reg, view, items >>
+  /\ UNCHANGED << nlf, reg, view, items, hdr >>
 
 LeaveHC(byexc) ==      \* try / finally: the saved value is restored on a normal exit and on an exception alike
   /\ Len(hist) < MaxCalls /\ hc.stack # << >>
   /\ hc' = [flag |-> hc.stack[Len(hc.stack)], stack |-> SubSeq(hc.stack, 1, Len(hc.stack) - 1)]
   /\ Log([k |-> IF byexc THEN "hc_exit_exc" ELSE "hc_exit"], items, hc')
-  /\ UNCHANGED << nlf, reg, view, items >>
+  /\ UNCHANGED << nlf, reg, view, items, hdr >>
 
 Next ==
-  \/ AddLogicalFile
+  \/ \E sh \in 0..MaxLf : AddLogicalFile(sh)
   \/ \E lf \in 1..MaxLf, n \in Names, sn \in SetNames, r \in OriginRefs : AddOrigin(lf, n, sn, r)
-  \/ \E lf \in 1..MaxLf, c \in Classes, n \in Names, sn \in SetNames, r \in ItemRefs, ok \in BOOLEAN : AddItem(lf, c, n, sn, r, ok)
+  \/ \E lf \in 1..MaxLf, c \in Classes, n \in Names, sn \in SetNames, r \in ItemRefs, ok \in OkSet, t \in 0..MaxCalls : AddItem(lf, c, n, sn, r, ok, t)
   \/ EnterHC \/ LeaveHC(TRUE) \/ LeaveHC(FALSE)
 
 Spec == Init /\ [][Next]_vars
-View == << nlf, reg, view, items, hc >>
+View == << nlf, reg, view, items, hc, hdr >>
 
 (* ======================= what a write emits ============================== *)
 (* per logical file: its ORIGIN sets first, then the other sets, each with ALL items of the (possibly shared) set *)
@@ -161,11 +168,35 @@ Emitted(lf) ==
 
 SharedSets == \E a, b \in 1..nlf : a # b /\ \E i \in DOMAIN view[a] : \E j \in DOMAIN view[b] : view[a][i] = view[b][j]
 
+(* ======================= what check_objects refuses at a write ============ *)
+(* (the model's histories are completed to files with an origin, channels and frames per logical file before they   *)
+(*  are written, so the completeness checks do not appear here)                                                    *)
+SharedWith(lf) == \E b \in 1..nlf : b # lf /\ \E i \in DOMAIN view[lf] : \E j \in DOMAIN view[b] : view[lf][i] = view[b][j]
+OwnItems(lf) == UNION { { SetItems(view[lf][k])[j] : j \in DOMAIN SetItems(view[lf][k]) } : k \in DOMAIN view[lf] }
+ForeignRef(lf) == \E i \in OwnItems(lf) : items[i].tgt # 0 /\ ~\E k \in DOMAIN view[lf] : view[lf][k] = Key(items[items[i].tgt].cls, items[items[i].tgt].sn)
+HeadersIn(h) == { lf \in 1..nlf : hdr[lf] = h }
+CrowdedHeader(lf) == Cardinality(HeadersIn(hdr[lf])) # 1
+Refused(lf) == SharedWith(lf) \/ (ForeignRefCheck /\ ForeignRef(lf)) \/ (HeaderSetCheck /\ CrowdedHeader(lf))
+Writable == \A lf \in 1..nlf : ~Refused(lf)
+
 (* ======================= obligations ===================================== *)
+(* C07: in a file that is written, every reference resolves - by the identity it is written as - to exactly one object *)
+(* the logical file emits, and that object is the one the caller passed (K03 aside)                                *)
+KnownK03(x, y) == x.cls = y.cls /\ x.sn # y.sn
+SameIdentity(x, y) == x.cls = y.cls /\ x.name = y.name /\ x.copy = y.copy /\ x.origin = y.origin
+RefResolves ==
+  Writable => \A lf \in 1..nlf : \A a \in DOMAIN Emitted(lf) :
+     LET x == items[Emitted(lf)[a]] IN
+       x.tgt = 0 \/ LET cands == { b \in DOMAIN Emitted(lf) : SameIdentity(items[Emitted(lf)[b]], items[x.tgt]) } IN
+                      (\E b \in cands : Emitted(lf)[b] = x.tgt)
+                      /\ \A b \in cands : Emitted(lf)[b] = x.tgt \/ KnownK03(items[Emitted(lf)[b]], items[x.tgt])
+
+(* C09 / C18: in a file that is written, every logical file opens with a header record holding its own header only *)
+HeaderOwn == Writable => \A lf \in 1..nlf : HeadersIn(hdr[lf]) = {lf}
+
 (* C07: identity (class, origin, copy, name) unique among the objects a logical file emits *)
 (* Known finding K03 (reproduced by this model, confirmed on the code): the copy number counts same-named objects *)
 (* of the parent SET, so two sets of one type (different set names) in one logical file give equal identities.   *)
-KnownK03(x, y) == x.cls = y.cls /\ x.sn # y.sn
 IdentityUnique ==
   \A lf \in 1..nlf : \A a, b \in DOMAIN Emitted(lf) :
      a # b => LET x == items[Emitted(lf)[a]]  y == items[Emitted(lf)[b]] IN
@@ -190,7 +221,7 @@ Completeness ==
 ViewUnique == \A lf \in 1..nlf : \A i, j \in DOMAIN view[lf] : i # j => view[lf][i] # view[lf][j]
 
 (* C20: a rejected call changes no item (action property)                   *)
-RejectedIsNoOp == [][ (hist' # hist /\ "ok" \in DOMAIN hist'[Len(hist')].op /\ ~hist'[Len(hist')].op.ok) => items' = items ]_vars
+RejectedIsNoOp == [][ (hist' # hist /\ "ok" \in DOMAIN hist'[Len(hist')].op /\ ~hist'[Len(hist')].op.ok) => items' = items /\ view' = view ]_vars
 
 (* C17: the flag is TRUE exactly inside a context; leaving everything restores FALSE *)
 FlagDiscipline == (hc.stack = << >> => ~hc.flag) /\ (hc.stack # << >> => hc.flag)
@@ -210,6 +241,6 @@ Yielded   == SumLen(view)
 ProgressTotalCovers == Yielded <= Announced
 
 (* scenario generation: print complete histories (used with the Gen configuration) *)
-PrintLeaf == Len(hist) = MaxCalls => PrintT(<< "HIST", hist >>)
+PrintLeaf == Len(hist) = MaxCalls => PrintT(<< "HIST", hist, Writable >>)
 
 =====================================================================================
